@@ -247,11 +247,37 @@ class TolKey:
         return 0
 
 
+class StrictKey:
+    """["SK", k]: a key that only knows how to compare itself with its own kind: ``==`` with anything else raises
+    (like a version or a unit-carrying quantity)"""
+
+    __slots__ = ("k",)
+
+    def __init__(self, k):
+        self.k = k
+
+    def __repr__(self):
+        return f"StrictKey({self.k})"
+
+    def __eq__(self, other):
+        if not isinstance(other, StrictKey):
+            raise TypeError(f"cannot compare StrictKey with {type(other).__name__}")
+        return self.k == other.k
+
+    def __ne__(self, other):
+        return not self.__eq__(other)
+
+    def __hash__(self):
+        return hash(self.k)
+
+
 def mat(v):
     """Materialise a value descriptor into a fresh live object."""
     t = v[0]
     if t == "O":
         return OddKey(v[1], v[2])
+    if t == "SK":
+        return StrictKey(v[1])
     if t == "T":
         return TolKey(v[1])
     if t == "E":
@@ -312,6 +338,8 @@ def sig(o):
         return ("O", o.k, o.mode)
     if isinstance(o, TolKey):
         return ("T", o.k)
+    if isinstance(o, StrictKey):
+        return ("SK", o.k)
     if o is None:
         return ("n",)
     tp = type(o)
